@@ -516,6 +516,13 @@ def r19_5(ctx: Ctx):
            key="R19.5|ReportTable.to_json|keys")
 
 
+def run_extra(ctx: Ctx):
+    # ---------------------------------------------------------------- R19.9 nothing rendered is answered from state that outlives the question
+    from .common import process_state_rule
+    process_state_rule(ctx, "R19.9", [ctx.repo.func("Report.generate")],
+                       "a row or cell rendered for one report (its time format, its columns) is handed to another, so the emitted report depends on what other reports the file defines", census=False)
+
+
 def run(ctx: Ctx):
     entry, argc, pr, prev, class_table = plan_env(ctx)
     ctx.stats["functions_reachable_from_plan_report"] = len(prev)
